@@ -23,6 +23,7 @@ EXPLANATION = (
     "DER-validated on load and on add; authorize_signer sends OP_SIGVER|hash|u16be(iteration), then "
     "OP_SIGN|signature in list order, returns as soon as the device answers SUCCESS and raises when the "
     "signatures run out; ops/results/command equal signer_authorization.h; to_dict keys equal the keys "
+    "signapp per operation (walk of main() with the operation fixed): what key / eth sign, verify and store and where, manual, hash, message; the printable form of the message; "
     "from_jsonfile reads; signapp signs/verifies the digest of the version it stores. Does not decide "
     "that produced signatures verify (ECDSA library)."
 )
